@@ -23,7 +23,7 @@ Later additions (each documented at its function; DESIGN.md sections 11-18):
   N22 calls to resolved callees written positionally, default-valued keywords dropped  N23 .format / % read as f-strings
   N24 a local that merely names `self.a.b` is that attribute      N26 `**extra` of a never-written empty literal dropped      N27 dead code after a jump
   N28 private NamedTuple records are tuples (fields unpacked)      N29 private slotted records are dicts      N30 a private field that is only a literal
-  N31 new named constants read as their literals (specialise.py)   N32 bool(X) in test position is X
+  N31 new named constants read as their literals (specialise.py)   N32 bool(X) in test position is X      N33 `*t` of a local tuple display written out
   (+ sa/specialise.py: opt-in options newer than the pinned tree are analysed at their default; sa/inline.py: helpers newer than the pinned tree substituted)
 
 Line numbers are kept (reports still point at the source line); printed constructs show the normal form.
@@ -1666,6 +1666,43 @@ def _slotted_records_as_dicts(tree):
     return R().visit(tree)
 
 
+def _expand_literal_splats(tree):
+    """N33: `f(*t, ..)` with `t` a local bound exactly once, to a tuple / list display of plain names and constants none of which is re-bound
+    afterwards, is `f(<the elements>, ..)`."""
+    for fn in ast.walk(tree):
+        if not isinstance(fn, (ast.FunctionDef, ast.AsyncFunctionDef)):
+            continue
+        stores, lits = {}, {}
+        for n in ast.walk(fn):
+            if isinstance(n, ast.Name) and isinstance(n.ctx, (ast.Store, ast.Del)):
+                stores.setdefault(n.id, []).append(getattr(n, "lineno", 0))
+            elif isinstance(n, ast.arg):
+                stores.setdefault(n.arg, []).append(0)
+        for n in ast.walk(fn):
+            if isinstance(n, ast.Assign) and len(n.targets) == 1 and isinstance(n.targets[0], ast.Name) and isinstance(n.value, (ast.Tuple, ast.List)) \
+                    and len(stores.get(n.targets[0].id, [])) == 1 and all(isinstance(e, (ast.Name, ast.Constant)) for e in n.value.elts):
+                if all(not isinstance(e, ast.Name) or all(ln <= n.lineno for ln in stores.get(e.id, [])) for e in n.value.elts):
+                    lits[n.targets[0].id] = n
+        if not lits:
+            continue
+        # a list display could be mutated through the name: only names that are read nowhere but in `*name` positions
+        starred = {id(x.value) for x in ast.walk(fn) if isinstance(x, ast.Starred) and isinstance(x.value, ast.Name)}
+        for nm in list(lits):
+            if any(isinstance(x, ast.Name) and x.id == nm and isinstance(x.ctx, ast.Load) and id(x) not in starred for x in ast.walk(fn)):
+                del lits[nm]
+        for c in ast.walk(fn):
+            if isinstance(c, ast.Call) and any(isinstance(a, ast.Starred) and isinstance(a.value, ast.Name) and a.value.id in lits
+                                               and getattr(a, "lineno", 0) >= lits[a.value.id].lineno for a in c.args):
+                new = []
+                for a in c.args:
+                    if isinstance(a, ast.Starred) and isinstance(a.value, ast.Name) and a.value.id in lits:
+                        new.extend(ast.copy_location(copy.deepcopy(e), a) for e in lits[a.value.id].value.elts)
+                    else:
+                        new.append(a)
+                c.args = new
+    return tree
+
+
 def normalise(tree: ast.AST, extern=None) -> ast.AST:
     tree = _canonical_imports(tree)
     tree = _slotted_records_as_dicts(tree)
@@ -1673,6 +1710,7 @@ def normalise(tree: ast.AST, extern=None) -> ast.AST:
     tree = _records_as_tuples(tree)
     tree = _inline_attribute_aliases(tree)
     tree = _Interpolation().visit(tree)
+    tree = _expand_literal_splats(tree)
     tree = _positional_calls(tree, extern)
     tree = Normalise().visit(tree)
     tree = _unroll_table_loops(tree)
